@@ -211,10 +211,12 @@ Definition render_expr (e : sexpr) (ps : paren_supply) (seps : list nat) : bytes
   render_toks (fst (toks (S (size e)) ps false e)) seps.
 
 (* ---- value semantics *)
-Inductive sres := SVal (v : value) | SErr.
+(* SUnspec: the expression leaves the domain of this specification (non-ASCII case
+   mapping, text of a float outside the printable class): nothing is claimed *)
+Inductive sres := SVal (v : value) | SErr | SUnspec.
 
 Definition sbind (r : sres) (k : value -> sres) : sres :=
-  match r with SVal v => k v | SErr => SErr end.
+  match r with SVal v => k v | SErr => SErr | SUnspec => SUnspec end.
 
 (* HTML-escaping of literal text as the property states it: no raw < > &, quotes kept *)
 Definition esc_spec (s : bytes) : bytes :=
@@ -298,7 +300,7 @@ Fixpoint sem (fuel : nat) (env : list (bytes * value)) (e : sexpr) {struct fuel}
       | [] => Some []
       | x :: xs' => match sem f env x with
                     | SVal v => match go xs' with Some vs => Some (v :: vs) | None => None end
-                    | SErr => None
+                    | _ => None
                     end
       end in
     match e with
@@ -368,7 +370,7 @@ Fixpoint sem (fuel : nat) (env : list (bytes * value)) (e : sexpr) {struct fuel}
                | (k, x) :: xs' =>
                  match sem f env x with
                  | SVal v => match go xs' with Some vs => Some ((k, v) :: vs) | None => None end
-                 | SErr => None
+                 | _ => None
                  end
                end) pairs with
       | Some kvs => SVal (VObj (fold_left (fun (acc : list (bytes * value)) kv =>
@@ -385,6 +387,7 @@ Inductive shown := ShownText (s : bytes) | ShownError | ShownUnmodelled.
 Definition show_sres (r : sres) : shown :=
   match r with
   | SErr => ShownError
+  | SUnspec => ShownUnmodelled
   | SVal v => match value_string v with Some s => ShownText s | None => ShownUnmodelled end
   end.
 
